@@ -179,6 +179,12 @@ theorem C18_readmitted (c : Cfg) (evs : List Event) (hv : Valid c init evs) (p :
     (addPeer c (run c init evs) p).2 = .admitted :=
   (C18_admission_exact c evs hv p).2 ⟨hrun, (C18_ban_elapsed c evs p hel).1, hroom.1, hroom.2⟩
 
+/-- **The assumptions are a property of the history alone**: ids of the added peers pairwise
+distinct, outbound peers added with their version known, `done` carrying the peer that was added
+under its id (`ValidH`, no reference to the state) imply `Valid`. -/
+theorem C18_valid_of_history (c : Cfg) (evs : List Event) (h : ValidH [] evs) : Valid c init evs :=
+  valid_of_validH evs init [] (by simp [all, init]) h
+
 /-! ### non-vacuity and the accidents of the code, on concrete histories -/
 
 instance (s : State) (e : Event) : Decidable (Ok s e) := by
@@ -189,6 +195,19 @@ instance decValid (c : Cfg) : (s : State) → (evs : List Event) → Decidable (
   | s, e :: es => by
     unfold Valid
     exact @instDecidableAnd _ _ _ (decValid c (step c s e).1 es)
+
+instance decValidH : (added : List Peer) → (evs : List Event) → Decidable (ValidH added evs)
+  | _, [] => isTrue trivial
+  | added, .add p :: es => by
+    unfold ValidH
+    exact @instDecidableAnd _ _ _ (@instDecidableAnd _ _ _ (decValidH (p :: added) es))
+  | added, .done p :: es => by
+    unfold ValidH
+    exact @instDecidableAnd _ _ _ (decValidH added es)
+  | added, .addBad :: es => by unfold ValidH; exact decValidH added es
+  | added, .ban _ :: es => by unfold ValidH; exact decValidH added es
+  | added, .clock _ :: es => by unfold ValidH; exact decValidH added es
+  | added, .shutdown :: es => by unfold ValidH; exact decValidH added es
 
 private def tc : Cfg := { maxPeers := 3, maxPerIP := 2, banMs := 10 }
 private def pI (id host : Nat) : Peer := { id := id, kind := .inbound, host := host, group := 0, vk := true }
@@ -204,6 +223,7 @@ example : (run tc init h1).conn 0 = 2 ∧ (run tc init h1).groups 7 = 2 ∧ coun
 -- everybody leaves: counters are back to 0 and a formerly refused host is admitted (C18_counters_return_to_zero, C18_admission_exact)
 private def h2 : List Event := h1 ++ [.done (pI 1 0), .done (pO 2 0 7), .done (pO 4 1 7), .done (pI 3 0)]
 example : Valid tc init h2 := by decide
+example : ValidH [] h2 := by decide
 example : all (run tc init h2) = [] ∧ (run tc init h2).conn 0 = 0 ∧ (run tc init h2).groups 7 = 0 := by decide
 example : (addPeer tc (run tc init h2) (pI 9 0)).2 = .admitted := by decide
 -- ban: refused at +9 ms, admitted at +10 ms (C18_ban / C18_ban_elapsed / C18_readmitted hypotheses are satisfiable)
